@@ -741,6 +741,59 @@ def tryNormalize (d : List (DomVar α)) (lhs : Exp α) (cmp : Cmp) (rhs : Exp α
       | true, true => if Exp.mayBeUndefined e then none else some .tautology
       | false, false => if Exp.mayBeUndefined e then none else some .contradiction
 
+/-! ### `check_collapsing_logic_operands` (fixes 81a4b76, e35561f) -/
+
+/-- the test at one and/or node: `simplify` may hand a single operand back as it is (`x and 1` ↦ `x`); unless the
+simplified node is a logic value it is lowered (in the scratch context of the check) and must be a 0/1 context. -/
+def collapseNode (e : Exp α) : M α Unit := do
+  let collapsed := Exp.simplify e
+  let s ← get
+  if isLogicValue s.domain collapsed then pure ()
+  else do
+    let lowered ← linExp collapsed .exact
+    let s ← get
+    if !(isBinaryCtx lowered s.domain) then fail .nonBinaryLogicOperand else pure ()
+
+mutual
+/-- `check_collapsing_logic_operands`: post-order walk of the RAW expression. -/
+def collapseCheck : Exp α → M α Unit
+  | .num _ => pure ()
+  | .var _ => pure ()
+  | .abs e => collapseCheck e
+  | .not e => collapseCheck e
+  | .un _ e => collapseCheck e
+  | .min es => collapseCheckList es
+  | .max es => collapseCheckList es
+  | .and es => do collapseCheckList es; collapseNode (.and es)
+  | .or es => do collapseCheckList es; collapseNode (.or es)
+  | .xor l r => do collapseCheck l; collapseCheck r
+  | .implies l r => do collapseCheck l; collapseCheck r
+  | .iff l r => do collapseCheck l; collapseCheck r
+  | .bin op l r => do
+    collapseCheck l
+    collapseCheck r
+    match op with
+    | .and | .or => collapseNode (.bin op l r)
+    | _ => pure ()
+def collapseCheckList : List (Exp α) → M α Unit
+  | [] => pure ()
+  | e :: es => do collapseCheck e; collapseCheckList es
+end
+
+/-- the collapse check on the sides of the source constraints, in order: always the left side, the right side unless
+the constraint is a logic assertion. -/
+def collapseCheckConstraints : List (Constraint α) → M α Unit
+  | [] => pure ()
+  | c :: cs => do
+    collapseCheck c.lhs
+    if !c.isAssert then collapseCheck c.rhs
+    collapseCheckConstraints cs
+
+/-- everything `Linearizer::linearize` checks up front, on its scratch context (fix e35561f). -/
+def collapseCheckAll (m : Model α) : M α Unit := do
+  collapseCheck m.objective
+  collapseCheckConstraints m.constraints
+
 /-! ### `Linearizer::linearize` -/
 
 def simplifyFlat (e : Exp α) : M α (Exp α) :=
